@@ -37,6 +37,11 @@ RULE = (
     "= both ids >= 256 and colour code != 0."
 )
 ASSUMPTIONS = [
+    "provenance of the generic-parser object (kaitai API, not under test): IpSiteConnectProtocol.from_bytes(frame); the class "
+    "constructed on a KaitaiStream that holds 14 / 42 / 72 / n other octets before the frame (positioned at the frame) and 0..80 "
+    "octets behind it (the parser stores those as extra_data); close() called after parsing; copy.deepcopy of the parsed object; "
+    "in 'interleaved' also all frames of a batch parsed from ONE concatenated stream (last frame first), the objects sharing the "
+    "stream.  /repo decodes all of them correctly (it reads attributes only); expected values always come from the 72 octets",
     "every oracle parses the generic-parser (kaitai) object of a frame ONCE and hands the same object (and the same bytes object on "
     "the raw path) to the library 3 times per entry point, Burst.from_hytera_ipsc and HyteraIPSC.from_kaitai / from_ipsc_bytes "
     "alternating: every result must satisfy the value clauses, repeated results must equal the first, the public attribute tree "
@@ -227,14 +232,70 @@ def snapshot(o, depth=0):
     return type(o).__name__
 
 
+# Provenance of the generic-parser object: the same logical object obtained in every way the parser's public API offers.  The
+# expected values always come from the 72 octets; where the object came from must not matter.
+PROVENANCE_KINDS = ("from_bytes", "stream", "closed", "deepcopy")
+
+
+def make_parser_object(frame: bytes, prov=None):
+    """prov = None | {"kind": "from_bytes"} | {"kind": "stream", "prefix": hex, "suffix": hex} (parsed from a longer stream that
+    is positioned at the frame: capture-record headers / an earlier frame before it, trailing octets / a later frame behind it)
+    | {"kind": "closed"} (stream closed after parsing) | {"kind": "deepcopy"} (deep copy of the parsed object)"""
+    import copy
+    from io import BytesIO
+
+    from kaitaistruct import KaitaiStream
+    from okdmr.kaitai.hytera.ip_site_connect_protocol import IpSiteConnectProtocol
+
+    kind = (prov or {}).get("kind", "from_bytes")
+    if kind == "stream":
+        prefix, suffix = bytes.fromhex(prov.get("prefix", "")), bytes.fromhex(prov.get("suffix", ""))
+        io = KaitaiStream(BytesIO(prefix + frame + suffix))
+        io.seek(len(prefix))
+        return IpSiteConnectProtocol(io)
+    obj = IpSiteConnectProtocol.from_bytes(frame)
+    if kind == "closed":
+        obj.close()
+    elif kind == "deepcopy":
+        obj = copy.deepcopy(obj)
+    elif kind != "from_bytes":
+        raise HarnessError(f"unknown provenance {kind}")
+    return obj
+
+
+def parser_objects_from_one_stream(frames, prefix: bytes = b""):
+    """all frames concatenated in ONE stream (after ``prefix``); each frame is parsed at its own offset, last frame first (the
+    parser reads trailing octets as extra data), so all objects share the stream"""
+    from io import BytesIO
+
+    from kaitaistruct import KaitaiStream
+    from okdmr.kaitai.hytera.ip_site_connect_protocol import IpSiteConnectProtocol
+
+    io = KaitaiStream(BytesIO(prefix + b"".join(frames)))
+    objs = [None] * len(frames)
+    for i in reversed(range(len(frames))):
+        io.seek(len(prefix) + 72 * i)
+        objs[i] = IpSiteConnectProtocol(io)
+    return objs
+
+
+def _rand_prov(rng, i: int):
+    """deterministic rotation over the provenances, prefixes of 14 / 42 / 72 octets (Ethernet, Ethernet+IP+UDP, an earlier frame) or a
+    seeded length, with and without trailing octets"""
+    kind = ("from_bytes", "stream", "closed", "stream", "deepcopy", "stream")[i % 6]
+    if kind != "stream":
+        return {"kind": kind}
+    n = (14, 42, 72, rng.randrange(1, 200))[(i // 6) % 4]
+    m = (0, 0, 72, rng.randrange(1, 50))[(i // 24) % 4]
+    return {"kind": "stream", "prefix": rng.randbytes(n).hex(), "suffix": rng.randbytes(m).hex()}
+
+
 class _Parsed:
     """the generic-parser object of a frame, parsed ONCE; every library call on it goes through .call(), which compares the
     object's public attribute tree with the snapshot taken before the first call"""
 
-    def __init__(self, frame: bytes):
-        from okdmr.kaitai.hytera.ip_site_connect_protocol import IpSiteConnectProtocol
-
-        self.obj = IpSiteConnectProtocol.from_bytes(frame)
+    def __init__(self, frame: bytes, prov=None, obj=None):
+        self.obj = obj if obj is not None else make_parser_object(frame, prov)
         self.before = snapshot(self.obj)
         self.n_calls = 0
 
@@ -290,7 +351,7 @@ def oracle_decode(case):
     if exp["dst"] != 0:
         want["target_id"] = exp["dst"]
     keep = bytes(bytearray(frame))  # independent copy of the input octets
-    parsed = _Parsed(frame)
+    parsed = _Parsed(frame, case.get("prov"))
     first = {}
     for i in range(REPEATS):
         rep = "" if i == 0 else "repeat_decode_"
@@ -344,7 +405,7 @@ def _oracle_reencode(path: str):
         from okdmr.dmrlib.hytera.hytera_ipsc import HyteraIPSC
 
         keep = bytes(bytearray(frame))
-        parsed = _Parsed(frame) if path == "generic" else None
+        parsed = _Parsed(frame, case.get("prov")) if path == "generic" else None
         for i in range(REPEATS):
             rep = "reencode_" if i == 0 else "repeat_decode_reencode_"
             if path == "raw":
@@ -412,7 +473,14 @@ def _strategy():
         kind = payload_kind(h["slot_type"], h["call_type"])
         return params[kind].map(lambda bp: make_case(h, kind, bp))
 
-    return header.flatmap(with_payload)
+    # cheap to draw: length + one fill octet + 4 leading octets (the content of the surrounding octets is irrelevant to a correct decoder)
+    fillb = lambda n_strat: st.tuples(n_strat, st.integers(0, 255), st.binary(min_size=4, max_size=4)).map(lambda t: (t[2] + bytes([t[1]]) * t[0])[: t[0]].hex())
+    prefix = fillb(st.one_of(st.sampled_from([14, 42, 72]), st.integers(1, 200)))
+    suffix = st.one_of(st.just(""), st.just(""), fillb(st.one_of(st.just(72), st.integers(1, 80))))
+    prov = st.one_of(st.just({"kind": "from_bytes"}), st.just({"kind": "closed"}), st.just({"kind": "deepcopy"}),
+                     st.fixed_dictionaries({"kind": st.just("stream"), "prefix": prefix, "suffix": suffix}),
+                     st.fixed_dictionaries({"kind": st.just("stream"), "prefix": prefix, "suffix": suffix}))
+    return st.tuples(header.flatmap(with_payload), prov).map(lambda t: dict(t[0], prov=t[1]))
 
 
 def _rand_params(rng, kind: str) -> dict:
@@ -459,6 +527,8 @@ def _classes(case):
     cls = [f"slot.{e['slot_type']}", f"call.{e['call_type']}", f"class.{expected_class(e)}", f"ts.{e['ts']}",
            "ids." + ("both>=256" if min(e["dst"], e["src"]) >= 256 else "some<256"), "cc." + ("0" if e["cc"] == 0 else "1-15"),
            "pad." + ("00" if e["pad"] == 0 else "nonzero")]
+    pv = case.get("prov") or {"kind": "from_bytes"}
+    cls.append("parser_object." + pv["kind"] + (".with_trailing_octets" if pv.get("suffix") else ""))
     return (min(e["dst"], e["src"]) >= 256 and e["cc"] != 0), cls
 
 
@@ -477,8 +547,9 @@ def make_driver(n_quick: int, n_thorough: int):
         strat = _strategy()
 
         # fixed corpus: the 47 frames captured from real repeaters that the repository's tests carry
-        for h in CAPTURED_IPSC_FRAMES:
-            case = case_from_capture(h)
+        prng = ctx.rng("provenance", "captured")
+        for ci, h in enumerate(CAPTURED_IPSC_FRAMES):
+            case = dict(case_from_capture(h), prov=_rand_prov(prng, ci))
             ctx.run_case(sub.name, sub.oracle, case, ctx.tally)
             ctx.tally.case(sub.name, key=case, nontrivial=_classes(case)[0], cls="captured_frame")
 
@@ -504,9 +575,11 @@ def make_driver(n_quick: int, n_thorough: int):
             for s, c, ts, cc, p, f in part:
                 kind = payload_kind(s, c)
                 case = make_case(_rand_header(rng, s, c, ts, cc, p, f), kind, _rand_params(rng, kind))
+                case["prov"] = _rand_prov(rng, len(seen))
                 ctx.run_case(sub.name, sub.oracle, case, t)
                 nt, cls = _classes(case)
                 t.case(sub.name, nontrivial=nt and case["frame"] not in seen, cls="cross_product")
+                t.cls(sub.name, cls[-1])
                 seen.add(case["frame"])
             t.sample(sub.name, case)
 
@@ -538,6 +611,7 @@ def make_driver(n_quick: int, n_thorough: int):
         def bwork(chunk, t: Tally):
             i, part = chunk
             rng = ctx.rng("boundary", i)
+            n_done = 0
             for label, sl, cl, ts, cc, pkt, frm, dst, src, seq, res, pad in part:
                 kind = payload_kind(sl, cl)
                 h = _rand_header(rng, sl, cl, ts, cc, pkt, frm)
@@ -549,6 +623,8 @@ def make_driver(n_quick: int, n_thorough: int):
                 if kind == "raw" and pad in (0, 0xFF) and res != "seeded":
                     bp = {"octets": (bytes([pad]) * 34).hex()}  # sync / wake-up payload all-00 / all-FF as well
                 case = make_case(h, kind, bp)
+                case["prov"] = _rand_prov(rng, n_done)
+                n_done += 1
                 ctx.run_case(sub.name, sub.oracle, case, t)
                 t.case(sub.name, nontrivial=_classes(case)[0], cls=f"boundary.{label}")
             t.sample(sub.name, case)
@@ -579,9 +655,12 @@ def oracle_interleaved(case):
     from okdmr.dmrlib.hytera.hytera_ipsc import HyteraIPSC
 
     items = []
-    for sub in case["frames"]:
+    shared = None
+    if case.get("shared_stream"):
+        shared = parser_objects_from_one_stream([bytes.fromhex(sub["frame"]) for sub in case["frames"]], bytes.fromhex(case.get("stream_prefix", "")))
+    for idx, sub in enumerate(case["frames"]):
         frame, exp = _integrity(sub)
-        parsed = _Parsed(frame)
+        parsed = _Parsed(frame, sub.get("prov"), obj=None if shared is None else shared[idx])
         objs = [
             ("raw", call(Burst.from_hytera_ipsc, frame, clause="raw_decoder_no_exception")[1]),
             ("raw", call(HyteraIPSC.from_ipsc_bytes, frame, clause="raw_decoder_no_exception")[1]),
@@ -622,7 +701,9 @@ def drv_interleaved(ctx: Ctx, sub: SubCheck):
     from hypothesis import strategies as st
 
     single = _strategy()
-    batches = st.lists(single, min_size=2, max_size=4).flatmap(lambda fr: st.permutations(list(range(len(fr)))).map(lambda o: {"frames": fr, "order": list(o)}))
+    batches = st.lists(single, min_size=2, max_size=4).flatmap(
+        lambda fr: st.tuples(st.permutations(list(range(len(fr)))), st.booleans(), st.sampled_from(["", "00" * 14, "ab" * 42])).map(
+            lambda o: {"frames": fr, "order": list(o[0]), "shared_stream": o[1], "stream_prefix": o[2]}))
 
     def rec(case, t: Tally):
         segs = {bytes.fromhex(f["frame"])[0:2] + bytes.fromhex(f["frame"])[5:8] + bytes.fromhex(f["frame"])[9:16] + bytes.fromhex(f["frame"])[24:26] + bytes.fromhex(f["frame"])[60:62] + bytes.fromhex(f["frame"])[71:72] for f in case["frames"]}
@@ -630,6 +711,7 @@ def drv_interleaved(ctx: Ctx, sub: SubCheck):
         t.cls(sub.name, "opaque_segments_differ_within_batch" if len(segs) >= 2 else "opaque_segments_equal_within_batch")
         if case["order"] != sorted(case["order"]):
             t.cls(sub.name, "second_phase_in_another_order")
+        t.cls(sub.name, "parser_objects_share_one_stream" if case.get("shared_stream") else "parser_objects_of_separate_provenance")
 
     def hyp(i, t: Tally):
         ctx.hypothesis(sub.name, batches, oracle_interleaved, ctx.pick(1600, 64000) // 16, tally=t, shard=i, record=rec)
@@ -659,7 +741,8 @@ def drv_interleaved(ctx: Ctx, sub: SubCheck):
                     frames.append(make_case(h, kd, _rand_params(rng, kd)))
             n = len(frames)
             order = list(reversed(range(n))) if i % 2 == 0 else [(k + 1) % n for k in range(n)]
-            case = {"frames": frames, "order": order}
+            frames = [dict(f, prov=_rand_prov(rng, i + j)) for j, f in enumerate(frames)]
+            case = {"frames": frames, "order": order, "shared_stream": i % 3 == 1, "stream_prefix": ("", "00" * 14, rng.randbytes(42).hex())[i % 3]}
             ctx.run_case(sub.name, oracle_interleaved, case, t)
             t.case(sub.name, nontrivial=True, cls=f"deterministic_batch.{kind}")
         t.sample(sub.name, case)
